@@ -115,6 +115,41 @@ PROPS["C10"] = dict(
     ],
 )
 
+PROPS["C22"] = dict(
+    level="exploration",
+    technique="property-based testing (rapid) against a reference selector written from the doc comments; exhaustive over all lists of length <=6 on 2 AZs",
+    level_text="Exhaustive for small lists (every AZ assignment up to 6 nodes x 3 client AZs x 3 selectors, 64 calls each) and generated lists up to 300 nodes with candidates placed around the 255-node cap; the answer must lie in the documented priority class and rotation must reach every candidate.",
+    level_note="The reference encodes the documented fallback chains; with more than 8 equally ranked candidates only membership (not rotation) is asserted because the selectors deliberately consider at most 8. " + LIMITS,
+    units=[
+        U("inpkg", "rueidis", "TestVerif_C22_Exhaustive", T(1), T(1)),
+        U("inpkg", "rueidis", "TestVerif_C22_Selectors", T(20000), T(200000, shards=16)),
+    ],
+)
+
+PROPS["C44"] = dict(
+    level="exploration",
+    technique="property-based testing (rapid): URLs generated from a component grammar, differential against a reference mapping written from the documentation",
+    level_text="URLs are constructed (not filtered) from schemes, userinfo, hosts, paths and any subset/order/repetition of the supported query parameters with valid and invalid values; every option field is compared with the reference.",
+    level_note="The reference mapping (refParse) is trusted; it follows the property text: each parameter maps to its own option. " + LIMITS,
+    units=[U("inpkg", "rueidis", "TestVerif_C44_ParseURL", T(20000), T(200000, shards=16))],
+)
+
+PROPS["C45"] = dict(
+    level="exploration",
+    technique="property-based testing (rapid): bit-for-bit round trips from raw IEEE-754 bit patterns; differential against encoding/json",
+    level_text="Vectors are generated from raw bit patterns so every NaN payload, signed zero and subnormal occurs; round trip and byte layout are compared exactly.",
+    level_note=LIMITS,
+    units=[U("inpkg", "rueidis", "TestVerif_C45_Binary", T(20000), T(500000, shards=16))],
+)
+
+PROPS["C46"] = dict(
+    level="exploration",
+    technique="model-based property testing (rapid): generated page sequences and consumer stop points against a model iterator",
+    level_text="Generated page/cursor/error sequences and consumer stop points for Iter and Iter2; yielded elements, requested cursors and Err() are compared with a model iterator.",
+    level_note=LIMITS,
+    units=[U("inpkg", "rueidis", "TestVerif_C46_Scanner", T(20000), T(200000, shards=16))],
+)
+
 # ---- END PROPS (new entries go above this line)
 
 # every property without a check is listed here with its reason (kept current while building)
